@@ -121,13 +121,16 @@ func (d *wrappedSlidingWindowDetector) Check(seq uint64) (func() bool, bool) {
 
 	return func() bool {
 		latest := false
+		bit := diff
 		if diff < 0 {
 			// Update the head of the window.
 			d.mask.Lsh(uint(-diff))
 			d.latestSeq = seq
 			latest = true
+			bit = 0
 		}
-		d.mask.SetBit(uint(d.latestSeq - seq))
+		// diff is the wrapped distance behind the head of the window.
+		d.mask.SetBit(uint(bit))
 
 		return latest
 	}, true
